@@ -31,3 +31,12 @@ check("C17", "harness/c17_print_determinism.cxx", workers=(8, 16), wall=(20, 400
       title="printed text depends only on graph structure and printer options")
 check("C18", "harness/c18_printer.cxx", workers=(8, 16), wall=(60, 900), asan_extra="detect_stack_use_after_return=0",
       title="printing terminates and leaves the stream and the printer as it found them")
+MEMCHECK = ["valgrind", "--tool=memcheck", "--leak-check=full", "--show-leak-kinds=definite,indirect,possible",
+            "--errors-for-leak-kinds=definite,indirect,possible", "--num-callers=30", "--error-exitcode=0"]
+check("C19", "harness/c19_leaks.cxx", workers=(8, 16), wall=(40, 900), leaks=True,
+      aux=[dict(name="memcheck", flavour="plain", tiers=("thorough",), workers=2, wall=400, env={"VERIF_VALGRIND_MODE": "1"}, prefix=MEMCHECK)],
+      title="destroying a Lexicon frees all its memory; live use never touches dead storage")
+HELGRIND = ["valgrind", "--tool=helgrind", "--num-callers=30", "--error-exitcode=0", "--history-level=approx"]
+check("C20", "harness/c20_isolation.cxx", flavour="tsan", workers=(4, 16), wall=(60, 900),
+      aux=[dict(name="helgrind", flavour="plain", tiers=("thorough",), workers=2, wall=600, prefix=HELGRIND)],
+      title="Lexicons are isolated: independent instances can be used from different threads")
